@@ -743,6 +743,8 @@ func writeShimFacts(p *pkgInfo, outPath string) {
 	}
 	fmt.Fprintf(&b, "def grpcCodec : List String := %s\n", leanStrList(codec))
 	fmt.Printf("fact F8 grpc codec %v\n", codec)
+	b.WriteString("\n")
+	writeShimShape(p, &b)
 	b.WriteString("\nend Csproto.Generated\n")
 	writeIfChanged(outPath, []byte(b.String()))
 }
